@@ -11,6 +11,7 @@
      fixes/C13-02-implements-non-interface.patch ("implements" a non-interface)
      fixes/C13-03-resolver-binding.patch       (resolver parameters vs. binding)
      fixes/C13-04-name-trailing-newline.patch  (a name must match to the very end)
+     fixes/C13-05-default-resolver-assignment.patch (assigning Schema.default_resolver resets the memo)
 
    An error is (label, subject); the label identifies the message template,
    the subject lists the names quoted in the message.  Table (message regex ->
@@ -350,7 +351,8 @@ Inductive op :=
 | OpValidateSchema (resolver_validation : bool)   (* validate_schema(schema, enable_resolver_validation=b), called directly *)
 | OpRegisterResolver (tn fn : str) (sg : rsig) (allow_override : bool)
 | OpRegisterDefault (tn : str) (sg : rsig) (allow_override : bool)
-| OpRegisterSubscription (tn fn : str) (allow_override : bool).
+| OpRegisterSubscription (tn fn : str) (allow_override : bool)
+| OpAssignDefault (sg : option rsig).            (* schema.default_resolver = f  (None: = None) *)
 
 Inductive step_result :=
 | RAccepted                      (* validate() returned *)
@@ -455,6 +457,11 @@ Definition step (st : mstate) (o : op) : step_result * mstate :=
           | _ => (RSchemaError, st1)
           end
       end
+  | OpAssignDefault sg =>
+      (* the property setter of fix C13-05 resets the memo *)
+      let s := m_schema st in
+      (RDone, mkState (mkSchema (s_types s) (s_dirs s) (s_query s) (s_mutation s) (s_subscription s) sg)
+                      false (m_reg st) (m_defs st) (m_subs st))
   | OpRegisterSubscription tn fn allow =>
       if pair_mem (tn, fn) (m_subs st) && negb allow then (RValueError, st) else
       let st1 := mkState (m_schema st) (m_memo st) (m_reg st) (m_defs st) ((tn, fn) :: m_subs st) in
